@@ -588,6 +588,9 @@ func GenSession(prop string, seed uint64, thorough bool) *Scenario {
 	}
 	sc.Policy, sc.HotFuncs = genPolicy(g, p.hot, 4000*nc+2000)
 	sc.MaxSteps = 60000
+	if thorough {
+		sc.MaxSteps = 400000 // longer horizons, more clients
+	}
 	return sc
 }
 
